@@ -35,18 +35,40 @@
        parked_has_no_unseen_message    : a process parked in an evaluated select has every receive
                                          cursor at the end of its mailbox (for slices that park
                                          honestly: `honest_run`, the select machine of C05).
-   NOT PROVED (partial; full statements kept here):
+   FORMERLY NOT PROVED (the old text is kept):
      no_lost_wakeup_partial : the fourth clause of Inv_parked — "p in selecting, p awaits t, t has
                             a result  ->  the answer is in flight (ProcessResults event, pending_awaits
                             entry or UpdateAwaitResults command)" — and with it the corollary
                             quiescent_no_ready (all queues empty -> no parked process has a ready
                             source). The await handshake goes through five hops with stale and
-                            overwritten pending_awaits entries (F8/F72 live there); not closed.
-                            Proved: every hop wakes (wakeup_on_result, with the awaiting-key
-                            premise); the implementation-level quiescence oracle + wake-up probe of
-                            qv_sim check the global statement on every explored run. *)
+                            overwritten pending_awaits entries (F8/F72 live there).
+   NOW DECIDED (phase 4; sys/ProtoAwait*.v, ProtoQuiesce.v over the micro-step decomposition
+   sys/ProtoMicro.v):
+     REFUTED for arbitrary oracles (parked_await_refuted_for_dishonest_oracle, kernel-computed,
+       17 actions on 2 workers): a slice that issues Await [2] while keeping the stale key 1 of its
+       previous select lets the new AwaitAction overwrite the pending_awaits entry that stores
+       {1: Ok 11}; the run ends quiescent with process 0 parked, awaiting 1 (None), 1 finished,
+       nothing in flight. No slice of the real VM does this (complete_select, executor.rs:2671,
+       removes the process sources of a completed select; a process blocks in one select at a
+       time): a property of the select machine, not a defect of the protocol.
+     PROVED for every schedule and every oracle that is `await_honest` (a Prop/boolean on the
+       schedule, evaluated on the worker state each executor step starts from):
+         (a) a slice is executed only for a process that has no result yet, and
+         (b) a slice that ends with the Await action for ts leaves no key outside ts in `awaiting`:
+       await_backed : every None entry of an unfailed process is backed — the awaiter is registered in
+         awaiters_for_target ON THE TARGET'S OWN WORKER (and the target is in its `awaited` set),
+         or the answer is in flight: AwaitAction event | QueryAndAwait command | ProcessResults
+         event carrying the result | result stored in the pending_awaits entry | UpdateAwaitResults
+         command carrying the result;
+       parked_await_answer_in_flight : the fourth clause of Inv_parked as stated above (with "or the
+         awaiter has been completed by a failure": Worker::notify_result completes it in place);
+       quiescent_no_unseen_result / quiescent_no_ready : all command and event queues empty -> no
+         unfailed process has a None entry for a finished process (a pending_awaits entry is live:
+         every worker it still expects has the query or an answer in its queues), and with
+         parked_has_no_unseen_message: no parked process has an unseen ready source.
+     F72 is NOT a counterexample to this clause: the overtaken awaiter is runnable, not parked. *)
 From Quiver Require Import sys.Proto sys.ProtoMsg sys.ProtoFifo sys.ProtoDeliver sys.ProtoFail sys.ProtoWake sys.ProtoExamples
-  sys.ProtoWf sys.ProtoParked sys.ProtoSpawnInv sys.ProtoArrive.
+  sys.ProtoWf sys.ProtoParked sys.ProtoSpawnInv sys.ProtoArrive sys.ProtoMicro sys.ProtoOps sys.ProtoAwait sys.ProtoAwaitInv sys.ProtoAwaitThm sys.ProtoQuiesce.
 
 (* every stamped message that was sent is — counted with multiplicity — in exactly one of: the
    arrival log of a worker (its DeliverMessage was handled), a command queue (DeliverMessage in
@@ -253,3 +275,70 @@ Theorem C04_arrival_history_nonvacuous : exists s nd,
   tgt 1 (w_arrlog (n_w nd)) = [mkMsg 2 0 0] /\ arr 1 (n_w nd) = [mkMsg 2 0 0].
 Proof. exact arrival_history_nonempty. Qed.
 Print Assumptions C04_arrival_history_nonvacuous.
+
+(* ---- phase 4: the await handshake (fourth clause of Inv_parked) and quiescent_no_ready *)
+Theorem C04_await_backed : forall nw sigma s,
+  0 < nw -> await_honest_run (init nw) sigma -> run (init nw) sigma = Good s ->
+  forall i nd p pr t, nth_error (s_nodes s) i = Some nd ->
+    alookup p (w_procs (n_w nd)) = Some pr -> alookup t (p_awaiting pr) = Some None ->
+    failed pr \/
+    (exists j ndj, alookup t (e_router (s_env s)) = Some j /\ nth_error (s_nodes s) j = Some ndj /\
+                   registered p t (n_w ndj) /\ In t (w_awaited (n_w ndj))) \/
+    answer_in_flight s p t.
+Proof. exact await_backed. Qed.
+Print Assumptions C04_await_backed.
+
+Theorem C04_parked_await_answer_in_flight : forall nw sigma s,
+  0 < nw -> await_honest_run (init nw) sigma -> run (init nw) sigma = Good s ->
+  forall i nd p pr t j ndj r,
+    nth_error (s_nodes s) i = Some nd -> mem p (w_selecting (n_w nd)) = true ->
+    alookup p (w_procs (n_w nd)) = Some pr -> alookup t (p_awaiting pr) = Some None ->
+    nth_error (s_nodes s) j = Some ndj -> result_of (n_w ndj) t = Some r ->
+    failed pr \/ answer_in_flight s p t.
+Proof. exact parked_await_answer_in_flight. Qed.
+Print Assumptions C04_parked_await_answer_in_flight.
+
+Theorem C04_parked_await_refuted_for_dishonest_oracle :
+  exists s nd pr nd1,
+    run (init 2) stale_key_schedule = Good s /\ await_honest_runb (init 2) stale_key_schedule = false /\
+    nth_error (s_nodes s) 0 = Some nd /\ mem 0 (w_selecting (n_w nd)) = true /\
+    alookup 0 (w_procs (n_w nd)) = Some pr /\ p_res pr = None /\ alookup 1 (p_awaiting pr) = Some None /\
+    nth_error (s_nodes s) 1 = Some nd1 /\ result_of (n_w nd1) 1 = Some (ROk 11) /\
+    quiescent s /\ ~ answer_in_flight s 0 1.
+Proof. exact parked_await_refuted_for_dishonest_oracle. Qed.
+Print Assumptions C04_parked_await_refuted_for_dishonest_oracle.
+
+Theorem C04_await_premise_decidable : forall sigma s, await_honest_runb s sigma = true -> await_honest_run s sigma.
+Proof. exact await_honest_runb_sound. Qed.
+Print Assumptions C04_await_premise_decidable.
+
+Theorem C04_parked_await_nonvacuous :
+  await_honest_runb (init 2) await_schedule = true /\
+  exists s nd pr nd1,
+    run (init 2) await_schedule = Good s /\
+    nth_error (s_nodes s) 0 = Some nd /\ mem 0 (w_selecting (n_w nd)) = true /\
+    alookup 0 (w_procs (n_w nd)) = Some pr /\ p_res pr = None /\ alookup 1 (p_awaiting pr) = Some None /\
+    nth_error (s_nodes s) 1 = Some nd1 /\ result_of (n_w nd1) 1 = Some (ROk 5) /\
+    In (CUpdate 0 [(1, Some (ROk 5))]) (n_cmd nd).
+Proof. exact parked_await_applies. Qed.
+Print Assumptions C04_parked_await_nonvacuous.
+
+Theorem C04_quiescent_no_unseen_result : forall nw sigma s,
+  0 < nw -> await_honest_run (init nw) sigma -> run (init nw) sigma = Good s ->
+  (forall i nd, nth_error (s_nodes s) i = Some nd -> n_cmd nd = [] /\ n_evt nd = []) ->
+  forall i nd p pr t j ndj, nth_error (s_nodes s) i = Some nd ->
+    alookup p (w_procs (n_w nd)) = Some pr -> alookup t (p_awaiting pr) = Some None -> ~ failed pr ->
+    nth_error (s_nodes s) j = Some ndj -> result_of (n_w ndj) t = None.
+Proof. exact quiescent_no_unseen_result. Qed.
+Print Assumptions C04_quiescent_no_unseen_result.
+
+Theorem C04_quiescent_no_ready : forall nw sigma s,
+  0 < nw -> honest_run (init nw) sigma -> await_honest_run (init nw) sigma -> run (init nw) sigma = Good s ->
+  (forall i nd, nth_error (s_nodes s) i = Some nd -> n_cmd nd = [] /\ n_evt nd = []) ->
+  forall i nd p pr, nth_error (s_nodes s) i = Some nd ->
+    mem p (w_selecting (n_w nd)) = true -> alookup p (w_procs (n_w nd)) = Some pr ->
+    (forall sl, p_sel pr = Some sl -> sl_start sl <> None -> Forall (fun c => c = length (p_mail pr)) (sl_cursors sl)) /\
+    (~ failed pr -> forall t j ndj, alookup t (p_awaiting pr) = Some None ->
+       nth_error (s_nodes s) j = Some ndj -> result_of (n_w ndj) t = None).
+Proof. exact quiescent_no_ready. Qed.
+Print Assumptions C04_quiescent_no_ready.
